@@ -2,7 +2,7 @@
 import os
 import sys
 from pyvc.driver import main, native_bounded, VERIF
-from contracts import policy_native
+from contracts import policy_native, c05_roundtrip, c06_policy
 
 
 def custom_native(ip, runner):
@@ -14,10 +14,11 @@ def custom_native(ip, runner):
 
 def build(chk, ip, runner):
     chk.design_ref = 'DESIGN.md section 5 C05'
-    chk.units = []
+    chk.units = c05_roundtrip.units()
+    chk.stubs = c06_policy.stubs()
     chk.customs = [custom_native]
     chk.level = 'other'
-    chk.explanation = 'bounded run-time contract check of the real Policy.create / Policy.__init__ / Policy.evaluate round trip'
+    chk.explanation = 'evaluation half proved on the real Policy.evaluate for every peer (equal attributes pass, one differing attribute fails naming it); the text half (Policy.create -> Policy.__init__) and the whole round trip are a bounded run-time contract check'
 
 
 if __name__ == '__main__':
